@@ -62,7 +62,7 @@ def _grid(rng: Rng, m):
 def gen_cases(rng: Rng, tier):
     n = dict(quick=220, thorough=2500)[tier]
     big = tier == "thorough"
-    kinds = ["weights", "trapz", "int2", "int3", "norm", "gram", "gram2d", "multi", "basis"]
+    kinds = ["weights", "trapz", "int2", "int3", "norm", "gram", "gram2d", "multi", "basis", "gram_seq"]
     for k in range(n):
         kind = kinds[k % len(kinds)]
         if kind == "weights":
@@ -117,6 +117,17 @@ def gen_cases(rng: Rng, tier):
                 ys, ck = _curves(rng, 1, m)
                 obs.append(dict(t=[rs(x) for x in rng.grid(m)], y=[rs(x) for x in ys[0]]))
             yield dict(kind=kind, obs=obs, ck="irreg")
+        elif kind == "gram_seq":
+            # a history on ONE object: Gram matrices with different noise variances, values replaced in between
+            N, m = rng.randint(2, 8), rng.randint(3, 12)
+            X, ck = _curves(rng, N, m, "rand")
+            X2, _ = _curves(rng, N, m, "rand")
+            ops = []
+            for _ in range(rng.randint(2, 5)):
+                ops.append(rng.choice([["ip", rs(rng.choice([0, Fraction(1, 4), 3]))], ["ip", "0"], ["ip_default"], ["norm"], ["set", "X2"], ["set", "X"]]))
+            ops.append(["ip", "0"])
+            yield dict(kind=kind, t=[rs(x) for x in _grid(rng, m)], X=[[rs(x) for x in r] for r in X],
+                       X2=[[rs(x) for x in r] for r in X2], ops=ops, ck=ck)
         elif kind == "basis":
             # basis-expansion data given by an explicit basis matrix (K x m) and coefficients (N x K)
             m = rng.randint(3, 15)
@@ -212,6 +223,25 @@ def run_impl(case):
             perm = case["perm"]
             out["Gperm"] = _dense([t], X[perm]).inner_product(noise_variance=s2).tolist()
             out["cnsq"] = fd.center().norm(squared=True).tolist()
+    elif kind == "gram_seq":
+        from FDApy.representation.values import DenseValues
+
+        t = _Fv(case["t"])
+        Xs = dict(X=np.array(fl(_Fm(case["X"]))), X2=np.array(fl(_Fm(case["X2"]))))
+        fd = _dense([t], Xs["X"].copy())
+        res = []
+        for op in case["ops"]:
+            if op[0] == "ip":
+                res.append(np.array(fd.inner_product(noise_variance=float(F(op[1])))).tolist())
+            elif op[0] == "ip_default":
+                fd.inner_product()
+                res.append(None)
+            elif op[0] == "norm":
+                res.append(fd.norm(squared=True).tolist())
+            elif op[0] == "set":
+                fd.values = DenseValues(Xs[op[1]].copy())
+                res.append(None)
+        out["res"] = res
     elif kind == "gram2d":
         t1, t2 = _Fv(case["t1"]), _Fv(case["t2"])
         X = np.array(fl(_Fm(case["X"]))).reshape(-1, len(t1), len(t2))
@@ -227,6 +257,11 @@ def run_impl(case):
         out["Gp"] = [c.inner_product(noise_variance=0).tolist() for c in comps]
         out["nsq"] = mfd.norm(squared=True).tolist()
         out["n"] = mfd.norm().tolist()
+        if all(len(c["t"]) >= 3 for c in case["comps"]):
+            out["G_simpson"] = mfd.inner_product(method_integration="simpson", noise_variance=np.zeros(len(comps))).tolist()
+            out["Gp_simpson"] = [c.inner_product(method_integration="simpson", noise_variance=0).tolist() for c in comps]
+            out["nsq_simpson"] = mfd.norm(squared=True, method_integration="simpson").tolist()
+            out["nsqp_simpson"] = [c.norm(squared=True, method_integration="simpson").tolist() for c in comps]
     elif kind == "irreg_norm":
         from FDApy.representation.argvals import DenseArgvals, IrregularArgvals
         from FDApy.representation.functional_data import IrregularFunctionalData
@@ -285,6 +320,17 @@ def model_lines(case, impl):
         return [f"normsq {J(case['t'])} {M(case['X'])}"] + ([f"normsq_stand {J(case['t'])} {M(case['X'])}"] if case.get("stand") else [])
     if kind == "gram":
         return [f"gram {J(case['t'])} {M(case['X'])} {case['s2']}"]
+    if kind == "gram_seq":
+        cur = "X"
+        ls = []
+        for op in case["ops"]:
+            if op[0] == "ip":
+                ls.append(f"gram {J(case['t'])} {M(case[cur])} {op[1]}")
+            elif op[0] == "norm":
+                ls.append(f"normsq {J(case['t'])} {M(case[cur])}")
+            elif op[0] == "set":
+                cur = op[1]
+        return ls
     if kind == "gram2d":
         return [f"gram2 {J(case['t1'])} {J(case['t2'])} {M(case['X'])} {case['s2']}"]
     if kind == "multi":
@@ -355,6 +401,18 @@ def compare(case, impl, model):
             return [f"gram shape {len(G)} vs {len(Q)}"]
         for i, (gr, qr) in enumerate(zip(G, Q)):
             ds += _cmp_vec(f"gram[{i}]", gr, qr, scale, 1e-9)
+            if ds:
+                break
+    elif kind == "gram_seq":
+        k = 0
+        for op, r in zip(case["ops"], impl["res"]):
+            if op[0] == "ip":
+                Q = pmat(model["outs"][k]); k += 1
+                sc = max([abs(float(x)) for row in Q for x in row] + [abs(float(F(op[1]))), 1e-300])
+                for i, (gr, qr) in enumerate(zip(r, Q)):
+                    ds += _cmp_vec(f"step {op}: gram[{i}]", gr, qr, sc, 1e-9)
+            elif op[0] == "norm":
+                ds += _cmp_vec(f"step {op}: normsq", r, pvec(model["outs"][k])); k += 1
             if ds:
                 break
     elif kind == "multi":
@@ -435,6 +493,36 @@ def oracle(case, impl):
                 bad("cauchy_schwarz", "|<x,y>| > norm(x) norm(y)", "_inner_product")
         if any(x < 0 for x in impl["nsq"]):
             bad("nonneg", "negative squared norm", "DenseFunctionalData.norm")
+    elif kind == "basis" and "error" not in impl:
+        G = np.array(impl["G"], dtype=float)
+        sc = max(np.abs(G).max(), 1e-300)
+        if not np.allclose(np.diag(G), impl["grid_nsq"], rtol=1e-7, atol=1e-9 * sc):
+            bad("basis_norm", "squared norms from the coefficients differ from those of the evaluated curves", "BasisFunctionalData.inner_product")
+        if not np.allclose(impl["nsq"], impl["grid_nsq"], rtol=1e-7, atol=1e-9 * sc):
+            bad("basis_norm", "BasisFunctionalData.norm differs from the norm of the evaluated curves", "BasisFunctionalData.norm")
+        if not np.allclose(G, G.T, rtol=0, atol=1e-9 * sc):
+            bad("symmetric", "coefficient-space Gram matrix not symmetric", "BasisFunctionalData.inner_product")
+        if np.linalg.eigvalsh((G + G.T) / 2).min() < -1e-8 * sc:
+            bad("psd", "coefficient-space Gram matrix not PSD", "BasisFunctionalData.inner_product")
+    elif kind == "gram_seq":
+        # the last step is inner_product(noise_variance=0): must be a Gram matrix of the CURRENT values
+        G = np.array(impl["res"][-1], dtype=float)
+        sc = max(np.abs(G).max(), 1e-300)
+        if not np.allclose(G, G.T, rtol=0, atol=1e-9 * sc):
+            bad("symmetric", "Gram matrix after a history of calls not symmetric", "DenseFunctionalData.inner_product")
+        if np.abs(G.sum(axis=1)).max() > 1e-8 * sc * len(G):
+            bad("rows_sum_zero", "rows of the Gram matrix do not sum to zero after a history of calls", "DenseFunctionalData.inner_product")
+        if np.linalg.eigvalsh((G + G.T) / 2).min() < -1e-8 * sc:
+            bad("psd", "Gram matrix not PSD after a history of calls", "DenseFunctionalData.inner_product")
+        cur = "X"
+        for op in case["ops"]:
+            if op[0] == "set":
+                cur = op[1]
+        Xc = np.array(fl(_Fm(case[cur])))
+        Xc = Xc - Xc.mean(axis=0)
+        d = np.trapz(Xc * Xc, x=np.array(fl(_Fv(case["t"]))), axis=1)
+        if not np.allclose(np.diag(G), d, rtol=1e-8, atol=1e-9 * sc):
+            bad("diagonal", "diagonal of the Gram matrix is not the squared norm of the centred CURRENT curves (stale state?)", "DenseFunctionalData.inner_product")
     elif kind in ("gram", "gram2d", "multi"):
         G = np.array(impl["G"], dtype=float)
         entry = {"gram": "DenseFunctionalData.inner_product", "gram2d": "DenseFunctionalData.inner_product", "multi": "MultivariateFunctionalData.inner_product"}[kind]
@@ -458,6 +546,15 @@ def oracle(case, impl):
             S = np.sum([np.array(g) for g in impl["Gp"]], axis=0)
             if not np.allclose(G, S, rtol=0, atol=1e-9 * sc):
                 bad("multivariate_sum", "multivariate Gram matrix is not the sum of the component Gram matrices", entry)
+            if "G_simpson" in impl:
+                Gs = np.array(impl["G_simpson"])
+                Ss = np.sum([np.array(g) for g in impl["Gp_simpson"]], axis=0)
+                scs = max(np.abs(Ss).max(), 1e-300)
+                if not np.allclose(Gs, Ss, rtol=0, atol=1e-9 * scs):
+                    bad("multivariate_sum", "simpson: multivariate Gram matrix is not the sum of the component Gram matrices", entry)
+                ns = np.sum(np.array(impl["nsqp_simpson"]), axis=0)
+                if not np.allclose(impl["nsq_simpson"], ns, rtol=1e-9, atol=1e-12 * scs):
+                    bad("multivariate_sum", "simpson: multivariate squared norm is not the sum of the component squared norms", "MultivariateFunctionalData.norm")
     return vs
 
 
